@@ -143,6 +143,7 @@ type Sim struct {
 	sched    Rng
 	yieldRng Rng
 	appRng   Rng
+	detSalt  uint64 // per-run salt of DetKey
 	prioRng  Rng
 
 	pctPoints [16]int
@@ -190,6 +191,7 @@ func New(seed uint64, cfg Config) *Sim {
 		sched:    NewRng(seed, 1),
 		yieldRng: NewRng(seed, 2),
 		appRng:   NewRng(seed, 3),
+		detSalt:  seed*0x9E3779B97F4A7C15 + 0x7F4A7C15,
 		prioRng:  NewRng(seed, 4),
 		lowPrio:  1 << 30,
 		RunEpoch: runEpochCounter,
@@ -649,15 +651,20 @@ func Start(t *Task) {
 // a crash of the task's incarnation) and the task simply ends.
 var PanicHook func(t *Task, r any) bool
 
-// DetWord returns a word from the run's application PRNG stream. It replaces
-// values that Pebble derives from object addresses (R13 of the rewriter).
+// DetKey replaces values that Pebble derives from object addresses (R13 of the
+// rewriter): a hash of the key and of a salt that is fixed for the run, so
+// that repeated evaluations for one key agree, as they do for one address.
 //
 //go:norace
-func DetWord() uint64 {
-	if S == nil {
-		return 0
+func DetKey(key []byte) uint64 {
+	h := uint64(14695981039346656037)
+	if s := S; s != nil {
+		h ^= s.detSalt
 	}
-	return AppRng().Next()
+	for _, b := range key {
+		h = (h ^ uint64(b)) * 1099511628211
+	}
+	return h * 0x9E3779B97F4A7C15
 }
 
 // Exit ends a task. It must be deferred directly (`defer simrt.Exit(t)`) so
